@@ -25,7 +25,7 @@ EXPLANATION = (
     'positions, advancing by the content length; (e) the item and authentication factories are keyed by the name the '
     'registered class hard-wires; (f) tag lists, simple authentication and bearer tokens are read at the positions '
     'and widths at which they are written. Not decided: value round trips.')
-EXPLANATION_ADDED = ("(g) every composite entry becomes one item of the class registered for its encoding, told that encoding, given exactly the content slice, appended once; (h) data-MIME / accept-MIME items and the authentication item are written as encoded headers (plus the authentication's own bytes) and read back through the header parser with the cursor advanced by what it consumed; lookup functions index their table with the argument unchanged; length guards are exact on both sides; writers in accumulator style are lowered as well.")
+EXPLANATION_ADDED = ("(g) every composite entry becomes one item of the class registered for its encoding, told that encoding, given exactly the content slice, appended once; (h) data-MIME / accept-MIME items and the authentication item are written as encoded headers (plus the authentication's own bytes) and read back through the header parser with the cursor advanced by what it consumed; lookup functions index their table with the argument unchanged; length guards are exact on both sides; writers in accumulator style are lowered as well. (i) the three extension parsers read their input to the end: the loop test is cursor < len(input) as linear forms; indexing a bytes object and bytes()/bytearray() copies are lowered like the struct reads they replace.")
 EXPLANATION = EXPLANATION.replace(' Not decided', ' ' + EXPLANATION_ADDED + ' Not decided', 1) \
     if ' Not decided' in EXPLANATION else EXPLANATION + ' ' + EXPLANATION_ADDED
 ASSUMPTIONS = COMMON_ASSUMPTIONS
@@ -930,5 +930,26 @@ def rule_g(ctx):
     extension_loops_progress(ctx)
 
 
+def rule_i(ctx):
+    """The three extension parsers read their input to the end: the loop goes on exactly while the cursor is below
+    the length of the bytes handed in (a bound one short drops a trailing one-byte item such as an empty tag)."""
+    from .c12 import PARSE_LOOPS
+    from .parserlib import while_reads_to_the_end
+    rep = ctx.report
+    for fspec, cspec in PARSE_LOOPS:
+        f = ctx.repo.func(fspec)
+        c = ctx.repo.cls(cspec)
+        loops = [n for n in walk_local(f.node) if isinstance(n, ast.While)]
+        if len(loops) != 1:
+            raise AnalysisError('C18.i: expected one loop in %s' % f.short)
+        n, problem = while_reads_to_the_end(ctx, f, c, loops[0],
+                                            no_inline={'require_by_id', 'get_by_name', 'item_parse'},
+                                            inline_filter=lambda g: g.name not in ('parse',) or g is f, arm='except')
+        if n == 0:
+            raise AnalysisError('C18.i: no iteration path in %s' % f.short)
+        rep.add('C18.i', '%s / the loop runs while unread input remains' % f.short, (f.file, loops[0].lineno),
+                problem is None, problem or 'continues exactly while cursor < len(input) (%d iteration paths)' % n)
+
+
 RULES = [('C18.a', rule_a), ('C18.b', rule_b), ('C18.c', rule_c), ('C18.d', rule_d), ('C18.e', rule_e),
-         ('C18.f', rule_f), ('C18.g', rule_entries), ('C18.h', rule_h), ('C12.e', rule_g)]
+         ('C18.f', rule_f), ('C18.g', rule_entries), ('C18.h', rule_h), ('C12.e', rule_g), ('C18.i', rule_i)]
